@@ -70,8 +70,46 @@ def rep_case(seq, n, nclients=2):
     return c
 
 
+def rep_abandoned_send_cases(n0):
+    """REP: a reply is abandoned (future dropped) while the requester's connection is not accepting data. The reply
+    was accepted (it is in the connection's buffer): a SECOND reply without a new request must be refused, and the
+    client must receive exactly one reply per request"""
+    out = []
+    n = n0
+    for credit in (0, 1, 7):
+        for k in (1, 2):
+            sc = wg.Script()
+            sc.sock(1, "REP")
+            sc.attach(1, 1, "REQ", b"c1")
+            sc.add("wire 1")
+            sc.reveal_msg(1, [b"", b"q1"])
+            f = sc.fut()
+            sc.add(f"recv {f} 1", f"poll {f}", f"credit 1 {credit}")
+            g = sc.fut()
+            sc.add(f"send {g} 1 {wg.mtok([b'r1'])}")
+            sc.add(*[f"poll {g}"] * k)
+            sc.add(f"drop {g}")
+            h = sc.fut()
+            sc.add(f"send {h} 1 {wg.mtok([b'r2-unsolicited'])}", f"poll {h}", f"drop {h}", "credit 1 inf")
+            sc.reveal_msg(1, [b"", b"q2"])
+            f = sc.fut()
+            sc.add(f"recv {f} 1", f"poll {f}")
+            g = sc.fut()
+            sc.add(f"send {g} 1 {wg.mtok([b'r3'])}", f"poll {g}", "wire 1")
+            c = sc.case(f"rep-abandoned-send#{n}", ["rep-abandoned-send"])
+            c.expect = ("rep-abandon", h)
+            out.append(c)
+            n += 1
+    return out
+
+
 def cases(tier, rng):
     out = gen.corpus(ID)
+    # safety net: seeded random schedules of these socket types over scripted pipes (partial reads, back-pressure,
+    # errors, futures polled once or twice and then ABANDONED, sockets dropped) — every line predicted by the World model
+    for i in range(150 if tier == "quick" else 3000):
+        out.append(wg.random_case(rng, f"random-world#{i}", ["REQ", "REP"], tags=("random-world",)))
+    out += rep_abandoned_send_cases(900000)
     n = 0
     for L in range(1, 7):
         for seq in itertools.product("SRA", repeat=L):
@@ -97,6 +135,16 @@ def oracle(case, lines):
         return None
     it = iter(zip(case.ops, lines[1:]))
     res = list(it)
+    if case.expect[0] == "rep-abandon":
+        h = case.expect[1]
+        second = next(l for op, l in res if op == f"poll {h}")
+        if second == "ready ok" or second == "pending":
+            return ("REP accepted a second reply although no new request had been received (the first reply had been "
+                    f"accepted and then its send abandoned): {second}")
+        wire = "".join(l.split(" ", 1)[1] for op, l in res if op == "wire 1" and l != "wire .")
+        if (b"r2-unsolicited").hex() in wire:
+            return "an unsolicited reply reached the client"
+        return None
     if case.expect[0] == "req":
         awaiting = False
         replies = 0  # revealed, unconsumed
